@@ -123,7 +123,7 @@ def c19(ctx):
                         "every party calls Join only after the leader's Create returned",
                         "the accept queue of a listener is FIFO in connection order"]
     # (M) all interleavings of the main threads and accept goroutines
-    mcs = [(3, 2), (4, 1)] + ([(4, 2), (5, 1), (3, 4)] if thorough else [])
+    mcs = [(3, 2), (4, 1), (2, 2)] + ([(4, 2), (5, 1), (3, 4)] if thorough else [])
     for n, c in mcs:
         ctx.tlc_expect_ok("Mesh", "Mesh_mc.cfg", name="mesh-mc-%d-%d" % (n, c), timeout=3000,
                           cfg_text=MESH_CFG % ("Spec", n, c, "FALSE", "INVARIANT Safety\nPROPERTY Terminates"))
@@ -134,7 +134,7 @@ def c19(ctx):
         raise Broken("Mesh.tla no longer distinguishes count-before-add from add-before-count: %s" % r["status"])
     ctx.cov["spec_detects_count_before_add"] = True
     # (G) behaviours replayed through the gates on real sockets
-    gens = [(3, 2, 40), (4, 1, 30)] if not thorough else [(3, 2, 200), (4, 1, 150), (4, 2, 100), (5, 2, 60), (3, 4, 60), (2, 3, 20)]
+    gens = [(3, 2, 40), (4, 1, 30), (2, 2, 6)] if not thorough else [(3, 2, 200), (4, 1, 150), (4, 2, 100), (5, 2, 60), (3, 4, 60), (2, 3, 20)]
     allcases = []
     for n, c, num in gens:
         g = ctx.tlc("MeshGen", "Mesh_gen.cfg", mode="sim", workers=1, sim="num=%d" % num, depth=2000,
@@ -181,6 +181,10 @@ def c19(ctx):
     fres = os.path.join(ctx.tmp, "c19free.ndjson")
     ctx.run_vh(["c19", "free", fres, 150 if thorough else 25], timeout=3000)
     ctx.absorb(fres)
+    # one thread held for seconds at one scheduling point ("every order and timing in which the parties start")
+    sres = os.path.join(ctx.tmp, "c19slow.ndjson")
+    ctx.run_vh(["c19", "slow", sres, 3000 if thorough else 1500], timeout=3000)
+    ctx.absorb(sres)
     # binding self-test
     if first_trace and not ctx.violations:
         trace, n, c = first_trace
